@@ -65,8 +65,8 @@ TIE = {
            '(addEquation_tie, step_addEquation_tie, removeEquation_tie, addVariable_tie_of_inv, removeVariable_tie_of_inv).',
     'C09': 'Tied (Tie/Graph*.lean): the Model.graph property = C09.buildGraph for every equation system and every leftover '
            'Variable.type (graph_tie, graph_independent; the references of an equation are walked sorted by str, so the node and '
-           'edge LISTS do not depend on set iteration order: graph_set_order_irrelevant), graph_with_sympy_numbers = C09.stripGraph (graphNum_tie; hypothesis: '
-           'python only filters equations that contain a Quantity), get_equations_for = C09.getEquationsFor incl. order and '
+           'edge LISTS do not depend on set iteration order: graph_set_order_irrelevant), graph_with_sympy_numbers = C09.stripGraph (graphNum_tie, no hypothesis: '
+           'code and model prune only equations that contain a Quantity, Eqn.hasQ), get_equations_for = C09.getEquationsFor incl. order and '
            'error classes (getEquationsFor_tie), and their composition. networkx / sympy calls are leaves.',
     'C10': 'Tied (Tie/Roles*.lean): get_state_variables, get_free_variable, get_derivatives, get_derived_quantities, '
            'is_constant = Model/Roles.lean; get_value / _get_value with the memo as explicit state and the nested '
